@@ -5,7 +5,8 @@ payload fold per placed k-mer with the orientation table of Appendix B.5, the te
 driver loop (every id visited, build only when available, each built node added exactly once), entry points funnel into
 the same driver with the caller's strandedness, node storage keeps sequence / extensions / payload in lockstep; and
 the step function itself (complete decision table, as in C02.1): the neighbour it hands to the walk is the k-mer the
-recorded extension denotes, looked up under the caller's strandedness, and only when it is present and available."""
+recorded extension denotes, looked up under the caller's strandedness, and only when it is present and available.
+Added later: the k-mer route's step, growth and builder functions interpreted together on scripted lines, rings and hairpins (decides the availability typestate whoever does the claiming); long-walk rows at mined size constants; filter_kmers tables; PackedDnaStringSet::add / DnaString::extend lemmas."""
 from .. import lemmas, dt_strings, dt_filter, dt_compress, dt_tables
 from . import common
 
